@@ -160,6 +160,7 @@ func RunCheck(id, tier string, base int64) int {
 		results, inconclusive, crashFindings = spawnWorkers(c, tier, base)
 	}
 	// merge
+	var caseInconclusive []string
 	sits := map[string]struct{}{}
 	evals := 0
 	events := 0
@@ -196,7 +197,7 @@ func RunCheck(id, tier string, base int64) int {
 			extra[k] += v
 		}
 		if r.Inconclusive != "" {
-			inconclusive = append(inconclusive, fmt.Sprintf("case %d: %s", r.Idx, r.Inconclusive))
+			caseInconclusive = append(caseInconclusive, fmt.Sprintf("case %d: %s", r.Idx, r.Inconclusive))
 		}
 		for _, f := range r.Findings {
 			addFinding(f, r.Idx, r.Sample)
@@ -210,6 +211,16 @@ func RunCheck(id, tier string, base int64) int {
 	}
 	if c.Post != nil {
 		inconclusive = append(inconclusive, c.Post(tier, extra)...)
+	}
+	// single cases that hit a watchdog (loaded machine) are reported in the evidence; they only make the whole run
+	// inconclusive if they are more than a handful - the coverage floors (MinDistinct, Post) still have to be met
+	tolerated := 2
+	if ncases/200 > tolerated {
+		tolerated = ncases / 200
+	}
+	if len(caseInconclusive) > tolerated {
+		inconclusive = append(inconclusive, caseInconclusive...)
+		caseInconclusive = nil
 	}
 	known := report.LoadKnown()
 	nviol := 0
@@ -246,7 +257,7 @@ func RunCheck(id, tier string, base int64) int {
 		Coverage: report.Coverage{
 			Evaluations: evals, DistinctNontrivial: len(sits), Rule: c.Rule, Samples: samples, Exhaustive: exhaustive, Cases: ncases,
 			EventsObserved: events, Extra: map[string]any{"counters": extra, "situations": truncate(report.SortedKeys(sits), 60)},
-			Inconclusive: truncate(inconclusive, 20), KnownFindings: knownSeen, ViolationSigs: violSigs,
+			Inconclusive: truncate(append(append([]string(nil), inconclusive...), caseInconclusive...), 20), KnownFindings: knownSeen, ViolationSigs: violSigs,
 		},
 		Assumptions: c.Assumptions, WallS: time.Since(start).Seconds(), Violations: nviol,
 	}
@@ -256,6 +267,9 @@ func RunCheck(id, tier string, base int64) int {
 	}
 	fmt.Printf("%s %s seed=%d: cases=%d evaluations=%d distinct=%d events=%d violations=%d known=%d inconclusive=%d wall=%.1fs\n",
 		id, tier, base, ncases, evals, len(sits), events, nviol, len(knownSeen), len(inconclusive), time.Since(start).Seconds())
+	for _, s := range truncate(caseInconclusive, 5) {
+		fmt.Println("NOTE (case not decided, tolerated):", s)
+	}
 	if nviol > 0 {
 		return 1
 	}
